@@ -298,6 +298,27 @@ func (c *Ctx) readOnlyRejects(pk *pkgT, fd *ast.FuncDecl, sel *ast.SelectorExpr)
 					return "lookup; found -> compared, mismatch -> error return", true
 				}
 				if neg && valBlank {
+					// the do-the-work-once shape marks the key inside the branch; an error
+					// for an ABSENT key means something else must have been processed first
+					marks := false
+					ast.Inspect(parentIf.Body, func(y ast.Node) bool {
+						if as2, ok := y.(*ast.AssignStmt); ok {
+							for _, l := range as2.Lhs {
+								if ix2, ok := ast.Unparen(l).(*ast.IndexExpr); ok {
+									if s2, ok := ast.Unparen(ix2.X).(*ast.SelectorExpr); ok && info.ObjectOf(s2.Sel) == info.ObjectOf(sel.Sel) {
+										marks = true
+									}
+								}
+							}
+						}
+						return true
+					})
+					if marks {
+						return "visited-set lookup; not found -> do the work once", true
+					}
+					if endsWithErrorReturn(info, parentIf.Body) {
+						return "use at " + c.P.Pos(sel.Pos()) + " makes the ABSENCE of a key an error: the declaration is accepted only if another one was processed before it (source order decides the verdict)", false
+					}
 					return "visited-set lookup; not found -> do the work once", true
 				}
 				if !neg && valBlank && endsWithNilReturnOrContinue(parentIf.Body) {
